@@ -810,7 +810,7 @@ class Interp:
                 return self.from_dump(a)
             if name == "_fields" and obj.cls.namedtuple:
                 return tuple(obj.cls.namedtuple["fields"])
-            raise EngineError(f"attribute {name} of {obj!r}")
+            raise OutOfReach(f"attribute {name} of {obj!r} is not part of the object model of the contract")
         if isinstance(obj, ClassRef):
             cls = obj.cls
             if cls.enum:
